@@ -133,7 +133,7 @@ def session(bdir, sid, seed, corpus, sz, contempt):
         if tbsession or contemptsession:
             go = rnd.choice(["nodes 150000", "nodes 300000", "depth 10"])
         elif rnd.random() < 0.8:
-            go = f"depth {rnd.randint(*sz['depths'])}"
+            go = f"depth {rnd.randint(*sz['depths'])} nodes 600000"       # the node cap bounds the running time (random-valued nets order moves badly: depth 11 can take an hour)
         else:
             go = f"nodes {rnd.choice([5000, 30000, 80000])}"
         cmd = f"position fen {probe['fen']} ; go {go} ; net {net} ; {fixed}"
